@@ -36,6 +36,63 @@ fn list_frame(rng: &mut Rng, l: &ListLayout, n: usize, fill: usize) -> Option<Ve
     Some(crc::frame(&p))
 }
 
+thread_local! {
+    /// per message number: messages the encoder refuses after having written part of the payload
+    static REFUSED: std::cell::RefCell<std::collections::HashMap<u16, Vec<Message>>> = std::cell::RefCell::new(std::collections::HashMap::new());
+}
+
+/// Messages of type `number` that `build_message` refuses (mutants of `d` and the decode of an all-ones body): a
+/// receiver's builder has usually seen other messages, refused ones included, before it encodes a list.
+fn refused_predecessors(number: u16, d: &Message) -> Vec<Message> {
+    REFUSED.with(|c| {
+        let mut c = c.borrow_mut();
+        if let Some(v) = c.get(&number) {
+            return v.clone();
+        }
+        let mut out: Vec<Message> = Vec::new();
+        let mut rng = Rng::derive(0xC15, "refused", number as u64);
+        let mut p = vec![0xFFu8; 1023];
+        bits::write(&mut p, 0, 12, number as u128);
+        let mut cands: Vec<Message> = Vec::new();
+        if let Ok(Some(m)) = decode(&crc::frame(&p)) {
+            cands.push(m);
+        }
+        if let Ok(v) = vtree::to_v(d) {
+            let mut tpl = crate::mutate::Templates::default();
+            tpl.learn(&v);
+            for _ in 0..200 {
+                let mut mv = v.clone();
+                crate::mutate::mutate(&mut mv, &mut rng, &tpl);
+                if let Ok(Ok(m)) = crate::mon::guard(|| vtree::from_v::<Message>(&mv)) {
+                    cands.push(m);
+                }
+            }
+        }
+        for m in cands {
+            if out.len() >= 8 {
+                break;
+            }
+            if matches!(build(&m), Ok(Err(_))) {
+                out.push(m);
+            }
+        }
+        c.insert(number, out.clone());
+        out
+    })
+}
+
+/// the same message on a builder that has just refused another one
+fn build_after_refusal(prev: &Message, m: &Message) -> Result<Result<Vec<u8>, String>, crate::mon::PanicEv> {
+    crate::mon::guard(|| {
+        let mut b = MessageBuilder::new();
+        let _ = b.build_message(prev).map(|f| f.len());
+        match b.build_message(m) {
+            Ok(f) => Ok(f.to_vec()),
+            Err(e) => Err(format!("{:?}", e)),
+        }
+    })
+}
+
 fn first_seq_len(v: &V) -> Option<usize> {
     match v {
         V::Seq(xs) => Some(xs.len()),
@@ -78,6 +135,22 @@ fn check_list_frame(ctx: &mut Ctx, l: &ListLayout, n: usize, f: &[u8]) {
             } else if f2.len() * 8 >= 24 + l.count_bit + l.count_width && bits::read(&f2[3..], l.count_bit, l.count_width) as usize != n {
                 ctx.violation(format!("C15.count_on_wire|{}", l.number), "C15.count_on_wire", format!("msg {}: {} elements but count field on the wire is {}", l.number, n, bits::read(&f2[3..], l.count_bit, l.count_width)), rp());
             } else if f2 == f {
+                // the same list on a builder that has just refused another message of this type
+                let prevs = refused_predecessors(l.number, &d);
+                if !prevs.is_empty() {
+                    let prev = &prevs[(ctx.evaluations as usize) % prevs.len()];
+                    ctx.count("lists_encoded_right_after_a_refused_message");
+                    if let Ok(Ok(f3)) = build_after_refusal(prev, &d) {
+                        if f3 != f2 {
+                            ctx.violation(
+                                format!("C15.same_order_and_content|{}|after_refused_message", l.number),
+                                "C15.same_order_and_content",
+                                format!("msg {} with {} elements: encoded right after a refused message the frame differs from the one a fresh builder gives: {} / {}", l.number, n, hex_short(&f3), hex_short(&f2)),
+                                rp(),
+                            );
+                        }
+                    }
+                }
                 if ctx.want_sample() && (n == l.capacity || n == 0) {
                     ctx.sample(|| json!({"number": l.number, "elements": n, "capacity": l.capacity, "payload_bytes": f.len() - 6, "count_field": {"bit": l.count_bit, "width": l.count_width}, "frame": hex_short(f), "result": "decoded n elements, re-encoded to the identical frame"}));
                 }
